@@ -6,6 +6,8 @@ import (
 	"go/ast"
 	"go/printer"
 	"go/token"
+	"os"
+	"path/filepath"
 	"strings"
 )
 
@@ -672,6 +674,80 @@ func init() {
 				})
 			}
 			def("cacheKeys", keys)
+		}
+		// round 12: pending-output bookkeeping of a multi-output compaction (kv/compact_job.go)
+		{
+			var sites []string
+			for _, d := range cj.Decls {
+				fd, ok := d.(*ast.FuncDecl)
+				if !ok || fd.Body == nil {
+					continue
+				}
+				for _, e := range c02Events(fd, c02Keep("family.removePendingOutput")) {
+					if e == "family.removePendingOutput" {
+						sites = append(sites, fd.Name.Name)
+					}
+				}
+			}
+			fmt.Fprintf(&sb, "\n/-- the functions of kv/compact_job.go that call family.removePendingOutput, one entry per call site -/\n")
+			def("compactPendingReleaseSites", sites)
+			fd, err := need(cj, "compactJob", "finishCompactionOutputFile")
+			if err != nil {
+				return "", err
+			}
+			fin := c02Events(fd, c02Keep("family.removePendingOutput", "builder.Count", "builder.Close", "builder.Abandon", "state.addOutputFile"))
+			def("finishOutputCalls", fin)
+			rel := false
+			for _, e := range fin {
+				if e == "family.removePendingOutput" {
+					rel = true
+				}
+			}
+			fmt.Fprintf(&sb, "/-- does finishCompactionOutputFile itself release the pending-output mark of the table it finished? -/\n")
+			fmt.Fprintf(&sb, "def finishOutputReleasesPending : Bool := %v\n", rel)
+			// every place of package kv that touches the pending-output marks: "<file>:<func>:<call>"
+			ents, err := os.ReadDir(filepath.Join(repo, "kv"))
+			if err != nil {
+				return "", err
+			}
+			var marks []string
+			for _, e := range ents {
+				name := e.Name()
+				if e.IsDir() || !strings.HasSuffix(name, ".go") || strings.HasSuffix(name, "_test.go") ||
+					strings.HasSuffix(name, "_mock.go") || strings.HasPrefix(name, "zz_verif") {
+					continue
+				}
+				f, err := parse("kv/" + name)
+				if err != nil {
+					return "", err
+				}
+				for _, d := range f.Decls {
+					fd, ok := d.(*ast.FuncDecl)
+					if !ok || fd.Body == nil {
+						continue
+					}
+					ast.Inspect(fd.Body, func(n ast.Node) bool {
+						c, ok := n.(*ast.CallExpr)
+						if !ok {
+							return true
+						}
+						nm := exprName(c.Fun)
+						switch {
+						case strings.HasSuffix(nm, ".removePendingOutput"), strings.HasSuffix(nm, ".addPendingOutput"):
+							marks = append(marks, name+":"+fd.Name.Name+":"+nm[strings.LastIndex(nm, ".")+1:])
+						case strings.HasPrefix(nm, "pendingOutputs."):
+							marks = append(marks, name+":"+fd.Name.Name+":"+nm)
+						}
+						return true
+					})
+				}
+			}
+			def("pendingMarkSites", marks)
+			fd, err = need(cj, "compactJob", "openCompactionOutputFile")
+			if err != nil {
+				return "", err
+			}
+			def("openOutputCalls", c02Events(fd, nil))
 		}
 		fmt.Fprintf(&sb, "\n/-- does `removeVersion` re-check `ref == 0` under the family lock before deleting? -/\n")
 		fmt.Fprintf(&sb, "def removeVersionRechecksRef : Bool := %v\n", c02RemoveRechecks(removeSteps))
